@@ -116,7 +116,9 @@ class C19(Prop):
                 names = [f"s{i}" for i in range(k)]
                 for _ in range(rng.randint(1, 5)):
                     r = rng.random()
-                    if r < 0.45:
+                    if r < 0.1 and not any(" nest " in l for l in lines):
+                        lines.append(f"prun {rng.choice([0, 1, 2, 7])}")     # the fork entry point in between
+                    elif r < 0.45:
                         lines.append(f"run {rng.choice([0, 1, 1, 2, 7, 11])}")
                     elif r < 0.7 and names:
                         nm = rng.choice(names)
@@ -182,6 +184,15 @@ class C19(Prop):
                         c["lines"].insert(1, f"cobserver {cb}")
                         c["lines"] += ["run 2", "stats", "cobserver none", "run 1", "stats"]
                         extra.append(c)
+        par = []
+        for halt in (True, False):
+            for s1 in small:
+                for s2 in (("pass", "ok", "none", True, "2"), ("reject", "raise", "ok", False, "4"), ("none", "raise0", "none", True, "1/2")):
+                    c = self._case(halt, "4", [s1, s2], 1, "run_parallel between sequential runs")
+                    c["lines"] = c["lines"][:-1] + ["prun 1", "run 1", "prun 2", "stats"]
+                    par.append(c)
+        par += [{"lines": [f"mapk {h} 100 10 10 10", "prun 0", "run 0", "stats"], "note": "MAPK preset forked"} for h in "01"]
+        par += [{"lines": ["cfg 1 4", "prun 1", "stats", "stage pass ok none 1 2", "prun 1", "stats"], "note": "empty cascade forked"}]
         nested = []
         for halt in (True, False):
             for mx in ("4", "100"):
@@ -199,6 +210,8 @@ class C19(Prop):
                 {"name": "a processor that re-enters run() on its own cascade x 2-stage pipelines x halt x max (each nested run judged "
                          "as a run of its own)", "cases": nested},
                 {"name": "the shipped MAPK preset x halt x max amplification x tier factors", "cases": mapk},
+                {"name": "run_parallel (fork entry point, outside the property: correspondence only) on 2-stage pipelines, the "
+                         "preset and an empty cascade, between sequential runs", "cases": par},
                 {"name": "construction mode x 2-stage pipelines; on_stage_complete observer scripts x 2-stage pipelines",
                  "cases": extra},
                 {"name": "same-object histories: gate replaced under the same name between runs; stages sharing a name",
@@ -279,9 +292,10 @@ class C19(Prop):
             def pf(x):
                 log.append(f"p{pos()}:{sig(x)}")
                 if pr == "nest":
-                    # a processor that re-enters run() on its own cascade (once: not from inside a nested run); the nested
-                    # run gets a log and an observer list of its own and is judged as a run of its own
-                    if depth[0] == 0:
+                    # a processor that re-enters run() on its own cascade (once: not from inside a nested run; not from a
+                    # worker thread of run_parallel); the nested run gets a log and an observer list of its own and is
+                    # judged as a run of its own
+                    if depth[0] == 0 and not forked[0]:
                         depth[0] += 1
                         saved_log, saved_seen = log[:], seen[:]
                         del log[:]
@@ -310,6 +324,7 @@ class C19(Prop):
             return d, st
 
         depth = [0]
+        forked = [False]      # inside run_parallel (callbacks run on worker threads)
         inner = []     # renderings of the nested runs started by `nest` processors during the current outer run
 
         def render(r):
@@ -474,6 +489,28 @@ class C19(Prop):
                         k = next(k for k, x in enumerate(cur) if x["name"] == t[1])
                         cur.pop(k)
                     obs.append("1" if ok else "0")
+                elif t[0] == "prun" and len(t) == 2:
+                    # the fork entry point: every processor is handed the same input; rendered order-insensitively
+                    ensure()
+                    del log[:]
+                    del seen[:]
+                    del cshown[:]
+                    forked[0] = True
+                    try:
+                        r = casc.run_parallel(int(t[1]))
+                    finally:
+                        forked[0] = False
+                    stc = {"completed": "c", "failed": "f", "skipped": "s", "blocked": "b"}
+                    outs = "none" if r.final_output is None else \
+                        "[" + ",".join(sorted(str(sig(v)) for v in r.final_output)) + "]" if isinstance(r.final_output, list) \
+                        else f"some:{sig(r.final_output)}"
+                    res = sorted(f"{q.stage_name}:{stc.get(q.status.value, '?')}:{show_rat(q.amplification_factor)}"
+                                 for q in r.stage_results)
+                    extra = ("" if not (seen or cshown) else " OBSERVERS-CALLED") + \
+                            ("" if r.blocked_at is None else f" blocked_at:{r.blocked_at}")
+                    obs.append(" ".join(["P", show_bool(r.success), outs, str(r.stages_completed), str(r.stages_total),
+                                         show_rat(r.total_amplification), "[" + ",".join(res) + "]",
+                                         "[" + ",".join(sorted(log)) + "]"]) + extra)
                 elif t[0] == "run" and len(t) == 2:
                     ensure()
                     del log[:]
@@ -516,6 +553,8 @@ class C19(Prop):
                 k = next((k for k, b in enumerate(beh) if b[6] == t[1]), None)
                 if k is not None:
                     beh.pop(k)
+            if t[0] == "prun":
+                continue       # run_parallel (fork, no pipeline order) is outside the property: correspondence only
             if o.startswith("raise:"):
                 out.append(Violation("call_returns", "a result", o, idx))
                 continue
